@@ -313,7 +313,7 @@ void post(const void* addr, Kind k, int order, std::uint64_t oldv, std::uint64_t
   } else if (k == K_LOAD || k == K_CAS) {
     if (me->reads_epoch != g->write_epoch) { me->reads.clear(); me->reads_epoch = g->write_epoch; }
     std::uint64_t seen = (k == K_LOAD) ? newv : oldv;
-    if (++me->reads[{addr, seen}] >= 3) me->spinning = true;
+    if (++me->reads[{addr, seen}] >= 5) me->spinning = true;  // 5: try_lock_checking legitimately re-reads a word 3x
   }
 }
 
